@@ -1,4 +1,4 @@
-import AmaranthVerif.Proofs.EngineTb
+import AmaranthVerif.Proofs.EngineExamples
 import AmaranthVerif.Spec.Engine
 
 /-!
@@ -35,10 +35,29 @@ Proved here, for all values, masks, process sets, orders, scripts and run length
   clock edge left it (every non-pending signal still has its pre-edge value), before any process
   woken by the edge has run; processes never write `curr`; a delta never runs a testbench.
 
-`DisjointWrites` is what C06 guarantees for compiled processes (one driver per bit); for user
-processes added with `add_process` it is a hypothesis on the user's code, and for memory write ports
-of different domains hitting one row at a coincident edge it does not hold (last writer wins in the
-real engine) — memories are not part of this model.
+Where the hypotheses come from:
+
+* `disjoint_writes_of_static`, `design_disjoint_writes` — `DisjointWrites` (a statement about *every*
+  state) follows from a static, decidable condition on the design: the commit masks of different
+  processes are pairwise disjoint bit sets per signal (one driver per bit — C06), and the clocks and
+  user processes write signals no circuit process masks (`StaticDisjoint`, `DesignOK`). A compiled
+  process' updates only carry its static masks, so this holds in all states.
+* The reset-only process and the synchronous process of an `async_reset` domain share their masks;
+  `CompatWrites` is *false* for such a design (refuting witness below). `arst_invariant`: in every
+  state reachable from `initState` a reset-only process is runnable only while its reset is `1`; there
+  the pair writes equal bits. `settle_perm_reachable`, `advance_perm_reachable`,
+  `advance_perm_design` restate the run-level theorems over the states satisfying that invariant,
+  from the static condition `DesignOK` alone.
+* `tick_sampling_settle`, `tick_sampling_end_to_end`, `tick_returns_pre_edge_values` — the tick wait
+  followed from the delta that commits the clock edge to the observation recorded by `advance()`: the
+  sampled values are those of `curr` right after that commit, i.e. the pre-edge values of everything
+  that is not pending at that commit.
+* `tb_sees_earlier_set` — in a pass, a `get` of testbench `n + 1` is evaluated on the settled state left
+  by the `set` of testbench `n`.
+
+For user processes added with `add_process` the footprint (`kindMasks`) is the signal (bit range) the
+process form sets; for memory write ports of different domains hitting one row at a coincident edge
+disjointness does not hold (last writer wins in the real engine) — memories are not part of this model.
 
 Not proved: that the model's trace equals the Spec's trace (`Spec/Engine.lean`) for all scripts; the
 two are compared on every run of the check.
@@ -126,8 +145,10 @@ theorem advance_perm (D : Design) (kinds : List ProcKind) (scripts : List (List 
   rw [mkSim_sched_perm D kinds scripts a b fuel hd.compat hn he]
   exact ⟨rfl, rfl, fun _ => rfl⟩
 
-/-- the same for processes whose overlapping writes agree (`CompatWrites`): what holds for a domain's
-process and its reset-only process -/
+/-- the same for processes whose overlapping writes agree in *every* state (`CompatWrites`). Note that
+this hypothesis is too strong for a domain's process and its reset-only process: they agree only in
+reachable states (see the refuting witness and `advance_perm_reachable` / `advance_perm_design` below,
+which are the theorems to use for designs with an `async_reset` domain) -/
 theorem advance_perm_compat (D : Design) (kinds : List ProcKind) (scripts : List (List TbOp)) (a b : Sched) (fuel : Nat)
     (hc : CompatWrites (simDefs D kinds scripts)) (hn : SchedNodup a) (he : SchedEquiv a b) (n : Nat) (s : EState) :
     advanceN (mkSim D kinds scripts a fuel) n s = advanceN (mkSim D kinds scripts b fuel) n s ∧
@@ -146,6 +167,176 @@ example (D : Design) : simDefs D [.clock 0 4 7, .clock 1 0 10] [] = twoClocks :=
 example : DisjointWrites twoClocks ∧ SchedNodup (identitySched 2 2) ∧ SchedEquiv (identitySched 2 2) (reverseSched 2 2) :=
   ⟨twoClocks_disjoint, fun _ => (by decide : (List.range 2).Nodup),
    fun _ => ⟨(List.reverse_perm (List.range 2)).symm, (List.reverse_perm (List.range 2)).symm⟩⟩
+
+/-! ## Where `DisjointWrites` comes from: a static condition on the design -/
+
+/-- **One driver per bit gives `DisjointWrites`.** If the static write footprints of the processes
+(`kindMasks`: the `LHSMaskCollector` masks of a compiled process, sign-extended as `update` receives
+them; the signal a clock toggles; the signal or bit range a documented process form sets) are pairwise
+disjoint, then in *every* state no two runnable processes write the same bit of the same signal. -/
+theorem disjoint_writes_of_static (D : Design) (kinds : List ProcKind) (scripts : List (List TbOp))
+    (h : StaticDisjoint D kinds) : DisjointWrites (simDefs D kinds scripts) :=
+  static_disjoint_writes D kinds scripts h
+
+/-- the same from the condition on the design, when it has no `async_reset` domain: the masks of the
+design's processes are pairwise disjoint, and the added clocks / user processes write signals no
+circuit process masks -/
+theorem design_disjoint_writes (D : Design) (extra : List ProcKind) (scripts : List (List TbOp))
+    (hok : DesignOK D extra) (hno : noArst (circuitKinds D ++ extra) = true) :
+    DisjointWrites (simDefs D (circuitKinds D ++ extra) scripts) :=
+  static_disjoint_writes D _ scripts (staticDisjoint_of_pairOK D _ (designOK_pairOK D extra hok) hno)
+
+/-- `advance_perm` with its hypothesis discharged from the static condition -/
+theorem advance_perm_static (D : Design) (kinds : List ProcKind) (scripts : List (List TbOp)) (a b : Sched) (fuel : Nat)
+    (hd : StaticDisjoint D kinds) (hn : SchedNodup a) (he : SchedEquiv a b) (n : Nat) (s : EState) :
+    advanceN (mkSim D kinds scripts a fuel) n s = advanceN (mkSim D kinds scripts b fuel) n s ∧
+    run (mkSim D kinds scripts a fuel) n s = run (mkSim D kinds scripts b fuel) n s ∧
+    (∀ deadline, runUntil (mkSim D kinds scripts a fuel) deadline n s =
+                 runUntil (mkSim D kinds scripts b fuel) deadline n s) :=
+  advance_perm D kinds scripts a b fuel (static_disjoint_writes D kinds scripts hd) hn he n s
+
+/-! ### non-vacuity: a counter (one `sync` process, one `comb` process) and an added clock -/
+
+/-- the static condition is decided, for the design and for the process list `mkSim` receives -/
+example : DesignOK Ex.counterD Ex.counterExtra ∧ noArst Ex.counterKinds = true ∧
+    StaticDisjoint Ex.counterD Ex.counterKinds := by decide
+
+/-- `settle_perm` applies to the counter: its `DisjointWrites` hypothesis holds -/
+example (fuel : Nat) (s : EState) :
+    settle (simDefs Ex.counterD Ex.counterKinds Ex.counterScripts) (identitySched 3 3) fuel s =
+    settle (simDefs Ex.counterD Ex.counterKinds Ex.counterScripts) (reverseSched 3 3) fuel s :=
+  settle_perm _ (wakers_commute _ _ _) (disjoint_writes_of_static _ _ _ (by decide)) _ _
+    (identitySched_nodup 3 3) (identity_reverse_equiv 3 3) fuel s
+
+/-- `advance_perm` applies to the counter: the run under the reversed schedule is the run under the identity schedule -/
+example :
+    run (mkSim Ex.counterD Ex.counterKinds Ex.counterScripts (identitySched 3 3) 50) 20 (initState Ex.counterD Ex.counterKinds Ex.counterScripts) =
+    run (mkSim Ex.counterD Ex.counterKinds Ex.counterScripts (reverseSched 3 3) 50) 20 (initState Ex.counterD Ex.counterKinds Ex.counterScripts) :=
+  (advance_perm_static Ex.counterD Ex.counterKinds Ex.counterScripts _ _ 50 (by decide)
+    (identitySched_nodup 3 3) (identity_reverse_equiv 3 3) 20 _).2.1
+
+/-- test: the two runs evaluated (tick samples `count = 5`, `out = 5 ^ 3 = 6` from before the edge) -/
+example :
+    (run (mkSim Ex.counterD Ex.counterKinds Ex.counterScripts (identitySched 3 3) 50) 20
+      (initState Ex.counterD Ex.counterKinds Ex.counterScripts)).obs.reverse
+      = [(0, 2, [1, 0, 5, 6]), (0, 2, [5]), (0, 6, [1, 0, 6]), (0, 6, [7])] ∧
+    (run (mkSim Ex.counterD Ex.counterKinds Ex.counterScripts (reverseSched 3 3) 50) 20
+      (initState Ex.counterD Ex.counterKinds Ex.counterScripts)).obs.reverse
+      = [(0, 2, [1, 0, 5, 6]), (0, 2, [5]), (0, 6, [1, 0, 6]), (0, 6, [7])] := by decide +kernel
+
+/-! ## Asynchronous resets: schedule independence over reachable states -/
+
+/-- `CompatWrites` — over *all* states — is false for a design with an `async_reset` domain: in the
+(unreachable) state where the reset-only process and the synchronous process are both runnable while
+the reset is `0`, one writes the initial value and the other the incremented value through the same mask -/
+example : ¬ CompatWrites (simDefs Ex.arstD (circuitKinds Ex.arstD) []) := by
+  intro h
+  have := h Ex.arstBadState 0 1 (by decide) ⟨2, 5, 15⟩ (by decide +kernel) ⟨2, 6, 15⟩ (by decide +kernel)
+  rcases this with h | h
+  · exact h rfl
+  · have := h 0 (by decide +kernel) (by decide +kernel)
+    revert this; decide +kernel
+
+/-- **The invariant of reachable states.** In every state a simulation reaches from `initState` by
+`advance()` calls (under a schedule that lists every process in every delta, as the engine's iteration
+over `_processes` does), a reset-only process is runnable only if the current value of its reset is `1`.
+Needs only that the resets are signals of the design (`arstWf`, decidable). -/
+theorem arst_invariant (D : Design) (kinds : List ProcKind) (scripts : List (List TbOp)) (a : Sched) (fuel : Nat)
+    (hwf : arstWf D kinds = true) (hl : SchedLists a kinds.length) (n : Nat) :
+    ArstInv D kinds (advanceN (mkSim D kinds scripts a fuel) n (initState D kinds scripts)) :=
+  (advanceN_agree (mkSim D kinds scripts a fuel) (mkSim D kinds scripts a fuel).step (ArstInv D kinds)
+    (mkSim_stepInv D kinds scripts a fuel hl) (fun _ _ => rfl) n _ (initState_arstInv D kinds scripts hwf)).2
+
+/-- the invariant is preserved by every step of the engine: one delta (any order listing the processes),
+`step_design()`, the timeline step, `advance()` -/
+theorem arst_invariant_steps (D : Design) (kinds : List ProcKind) (scripts : List (List TbOp)) (a : Sched) (fuel : Nat)
+    (hl : SchedLists a kinds.length) (s : EState) (h : ArstInv D kinds s) :
+    (∀ o : Orders, (∀ p, p < kinds.length → p ∈ o.procs) → ArstInv D kinds (delta (simDefs D kinds scripts) o s).1) ∧
+    ArstInv D kinds (settle (simDefs D kinds scripts) a fuel s).1 ∧
+    ArstInv D kinds (advanceTime (simDefs D kinds scripts) s).1 ∧
+    ArstInv D kinds (advance (mkSim D kinds scripts a fuel) s).1 :=
+  ⟨fun o ho => delta_arstInv D kinds scripts o ho s h,
+   (mkSim_stepInv D kinds scripts a fuel hl).step s h,
+   advanceTime_arstInv D kinds scripts s h,
+   (advance_agree (mkSim D kinds scripts a fuel) (mkSim D kinds scripts a fuel).step (ArstInv D kinds)
+     (mkSim_stepInv D kinds scripts a fuel hl) (fun _ _ => rfl) s h).2⟩
+
+/-- under the invariant, the processes that are runnable in a delta write compatible updates: disjoint
+masks, or — the reset-only and the synchronous process of one body — equal values (the synchronous
+process sees reset `= 1` and computes the initial values too) -/
+theorem compat_on_reachable (D : Design) (kinds : List ProcKind) (scripts : List (List TbOp))
+    (hs : kinds.Pairwise (PairOK D)) (s : EState) (h : ArstInv D kinds s) :
+    CompatAt (simDefs D kinds scripts) (trigPhase (simDefs D kinds scripts) s) :=
+  compatAt_of_arstInv D kinds scripts hs _ (trigPhase_arstInv D kinds scripts s h)
+
+/-- `settle_perm` over the states satisfying the invariant -/
+theorem settle_perm_reachable (D : Design) (kinds : List ProcKind) (scripts : List (List TbOp)) (a b : Sched)
+    (hs : kinds.Pairwise (PairOK D)) (hl : SchedLists a kinds.length) (hn : SchedNodup a) (he : SchedEquiv a b)
+    (fuel : Nat) (s : EState) (h : ArstInv D kinds s) :
+    settle (simDefs D kinds scripts) a fuel s = settle (simDefs D kinds scripts) b fuel s :=
+  (mkSim_step_on D kinds scripts a b fuel hs hl hn he s h).1
+
+/-- `advance_perm` over the states satisfying the invariant: every run from such a state — any number
+of `advance()` calls, `run()`, `run_until()` — is the same under any two schedules that iterate
+permutations of the same lists at every delta, and ends in a state satisfying the invariant -/
+theorem advance_perm_reachable (D : Design) (kinds : List ProcKind) (scripts : List (List TbOp)) (a b : Sched) (fuel : Nat)
+    (hs : kinds.Pairwise (PairOK D)) (hl : SchedLists a kinds.length) (hn : SchedNodup a) (he : SchedEquiv a b)
+    (n : Nat) (s : EState) (h : ArstInv D kinds s) :
+    advanceN (mkSim D kinds scripts a fuel) n s = advanceN (mkSim D kinds scripts b fuel) n s ∧
+    run (mkSim D kinds scripts a fuel) n s = run (mkSim D kinds scripts b fuel) n s ∧
+    (∀ deadline, runUntil (mkSim D kinds scripts a fuel) deadline n s =
+                 runUntil (mkSim D kinds scripts b fuel) deadline n s) ∧
+    ArstInv D kinds (advanceN (mkSim D kinds scripts a fuel) n s) := by
+  obtain ⟨h1, h2, h3⟩ := mkSim_runs_on D kinds scripts a b fuel hs hl hn he n s h
+  exact ⟨h1.1.symm, h2.1.symm, fun d => (h3 d).1.symm, h1.2⟩
+
+/-- **Schedule independence of a design, from the static condition alone.** Let the commit masks of
+the design's processes be pairwise disjoint, the added clocks and user processes write signals no
+circuit process masks, and the resets be signals of the design (`DesignOK`, decidable; `async_reset`
+domains allowed). Then every run of the simulation from its initial state is the same under any two
+schedules that iterate permutations of the same lists at every delta. -/
+theorem advance_perm_design (D : Design) (extra : List ProcKind) (scripts : List (List TbOp)) (a b : Sched) (fuel : Nat)
+    (hok : DesignOK D extra) (hl : SchedLists a (circuitKinds D ++ extra).length)
+    (hn : SchedNodup a) (he : SchedEquiv a b) (n : Nat) :
+    advanceN (mkSim D (circuitKinds D ++ extra) scripts a fuel) n (initState D (circuitKinds D ++ extra) scripts) =
+      advanceN (mkSim D (circuitKinds D ++ extra) scripts b fuel) n (initState D (circuitKinds D ++ extra) scripts) ∧
+    run (mkSim D (circuitKinds D ++ extra) scripts a fuel) n (initState D (circuitKinds D ++ extra) scripts) =
+      run (mkSim D (circuitKinds D ++ extra) scripts b fuel) n (initState D (circuitKinds D ++ extra) scripts) ∧
+    (∀ deadline,
+      runUntil (mkSim D (circuitKinds D ++ extra) scripts a fuel) deadline n (initState D (circuitKinds D ++ extra) scripts) =
+      runUntil (mkSim D (circuitKinds D ++ extra) scripts b fuel) deadline n (initState D (circuitKinds D ++ extra) scripts)) := by
+  obtain ⟨h1, h2, h3, _⟩ := advance_perm_reachable D (circuitKinds D ++ extra) scripts a b fuel
+    (designOK_pairOK D extra hok) hl hn he n _ (initState_arstInv D _ scripts hok.2.2.2)
+  exact ⟨h1, h2, h3⟩
+
+/-! ### non-vacuity: a counter in an `async_reset` domain; clock edge and rising reset coincide -/
+
+/-- the static condition is decided for the design with the asynchronous reset -/
+example : DesignOK Ex.arstD [] := by decide
+
+/-- `advance_perm_design` applies: the run under the reversed schedule is the run under the identity schedule -/
+example :
+    run (mkSim Ex.arstD Ex.arstKinds Ex.arstScripts (identitySched 3 4) 50) 20 (initState Ex.arstD Ex.arstKinds Ex.arstScripts) =
+    run (mkSim Ex.arstD Ex.arstKinds Ex.arstScripts (reverseSched 3 4) 50) 20 (initState Ex.arstD Ex.arstKinds Ex.arstScripts) :=
+  (advance_perm_design Ex.arstD [] Ex.arstScripts _ _ 50 (by decide) (identitySched_lists 3 4)
+    (identitySched_nodup 3 4) (identity_reverse_equiv 3 4) 20).2.1
+
+/-- test: the two runs evaluated. `set(Cat(clk, rst), 3)` wakes the reset-only and the synchronous
+process in the same delta; the counter is reset to 5 under both orders -/
+example :
+    (run (mkSim Ex.arstD Ex.arstKinds Ex.arstScripts (identitySched 3 4) 50) 20
+      (initState Ex.arstD Ex.arstKinds Ex.arstScripts)).obs.reverse
+      = [(0, 0, [6]), (0, 0, [5]), (0, 0, [6]), (0, 0, [6]), (0, 0, [5])] ∧
+    (run (mkSim Ex.arstD Ex.arstKinds Ex.arstScripts (reverseSched 3 4) 50) 20
+      (initState Ex.arstD Ex.arstKinds Ex.arstScripts)).obs.reverse
+      = [(0, 0, [6]), (0, 0, [5]), (0, 0, [6]), (0, 0, [6]), (0, 0, [5])] := by decide +kernel
+
+/-- `advance_perm_design` also covers the counter with its added clock (no asynchronous reset) -/
+example :
+    run (mkSim Ex.counterD Ex.counterKinds Ex.counterScripts (identitySched 3 3) 50) 20 (initState Ex.counterD Ex.counterKinds Ex.counterScripts) =
+    run (mkSim Ex.counterD Ex.counterKinds Ex.counterScripts (reverseSched 3 3) 50) 20 (initState Ex.counterD Ex.counterKinds Ex.counterScripts) :=
+  (advance_perm_design Ex.counterD Ex.counterExtra Ex.counterScripts _ _ 50 (by decide) (identitySched_lists 3 3)
+    (identitySched_nodup 3 3) (identity_reverse_equiv 3 3) 20).2.1
 
 /-! ## The timeline -/
 
@@ -225,14 +416,65 @@ theorem delay_exact (S : Sim) (t : Nat) (script : List TbOp) (fuel : Nat) (s : E
 
 example : Trigger.delay? [.delay 5, .sample (.sig 0)] = some 5 := rfl
 
+/-- non-vacuity: the hypotheses of `delay_exact` hold in the initial state of a `mkSim` simulation whose
+testbench starts with `await ctx.delay(5).sample(sig)`; the run resumes it at 5 fs -/
+example :
+    Ex.delayScripts[0]![(getLoc (initState Ex.delayD [] Ex.delayScripts) (Ex.delaySim.nproc + 0)).pc]? =
+      some (.wait [.delay 5, .sample (.sig 0)]) ∧
+    (getLoc (initState Ex.delayD [] Ex.delayScripts) (Ex.delaySim.nproc + 0)).report = false ∧
+    Trigger.delay? [.delay 5, .sample (.sig 0)] = some 5 ∧
+    (tbExec Ex.delaySim 0 Ex.delayScripts[0]! 1 (initState Ex.delayD [] Ex.delayScripts)).timers = [some 5] ∧
+    (run Ex.delaySim 10 (initState Ex.delayD [] Ex.delayScripts)).obs.reverse = [(0, 5, [1, 0]), (0, 5, [0])] :=
+  ⟨rfl, rfl, rfl, (delay_exact Ex.delaySim 0 Ex.delayScripts[0]! 0 _ _ 5 rfl rfl rfl).1, by decide +kernel⟩
+
 /-! ## Testbenches -/
 
 /-- testbenches take their turns in insertion order: a pass over `n + 1` testbenches is the pass over
-the first `n` followed by the turn of testbench `n`, which therefore sees everything the earlier ones wrote -/
+the first `n` followed by the turn of testbench `n`. This holds by construction of `tbPass` (a left fold
+over `List.range`): it restates the definition and is kept as the reading of "in the order in which they
+were added". What the order *means* for an observer is `tb_sees_earlier_set` below. -/
 theorem tb_order (S : Sim) (s : EState) (n : Nat) :
     tbPass S s = (List.range S.scripts.length).foldl (tbTurn S) (s, false) ∧
     (List.range (n + 1)).foldl (tbTurn S) (s, false) = tbTurn S ((List.range n).foldl (tbTurn S) (s, false)) n :=
   ⟨tbPass_eq S s, tbTurns_succ S (s, false) n⟩
+
+/-- **A later testbench sees an earlier testbench's write, settled.** In a pass, let testbench `n` be
+runnable with `ctx.set(tgt, v)` as the last operation of its script, and let `s₂` be the state
+`step_design()` returns after that write. If testbench `n + 1` is then runnable with `ctx.get(e)` as
+its next operation, its turn — the very next one in the pass — records the value of `e` in `s₂`, at `s₂`'s time. -/
+theorem tb_sees_earlier_set (S : Sim) (hobs : ∀ z, (S.step z).obs = z.obs)
+    (acc : EState × Bool) (n : Nat) (tgt : Expr) (v : Int) (e : Expr)
+    (l : Local) (hl : acc.1.locals[S.nproc + n]? = some l) (hrun : l.runnable = true) (hrep : l.report = false)
+    (hop : (S.scripts.getD n [])[l.pc]? = some (.set tgt v)) (hend : (S.scripts.getD n [])[l.pc + 1]? = none)
+    (s₂ : EState)
+    (hs₂ : s₂ = S.step { setLoc acc.1 (S.nproc + n) { l with runnable := false } with
+                          next := assignTbG true S.ctx acc.1.curr tgt 0 v (widthOf S.ctx tgt) acc.1.next })
+    (hlen₂ : S.nproc + n < s₂.locals.length)
+    (l' : Local) (hl' : s₂.locals[S.nproc + (n + 1)]? = some l') (hrun' : l'.runnable = true) (hrep' : l'.report = false)
+    (hop' : (S.scripts.getD (n + 1) [])[l'.pc]? = some (.get e)) :
+    (n + 1, s₂.now, [evalTb S.ctx s₂.curr e]) ∈ (tbTurn S (tbTurn S acc n) (n + 1)).1.obs :=
+  Engine.tb_sees_earlier_set S hobs acc n tgt v e l hl hrun hrep hop hend s₂ hs₂ hlen₂ l' hl' hrun' hrep' hop'
+
+/-- `step_design()` of a `mkSim` simulation records no observation: not a hypothesis for such simulations -/
+theorem step_keeps_obs (D : Design) (kinds : List ProcKind) (scripts : List (List TbOp)) (sched : Sched) (fuel : Nat)
+    (z : EState) : ((mkSim D kinds scripts sched fuel).step z).obs = z.obs := settle_obs _ _ _ z
+
+/-- non-vacuity and test: `out := in ^ 3`; testbench 0 does `set(in, 7)`, testbench 1 does `get(out)` in the
+same pass and records `7 ^ 3 = 4` — the settled consequence of testbench 0's write -/
+example :
+    (1, 0, [4]) ∈ (tbTurn Ex.orderSim (tbTurn Ex.orderSim (Ex.orderS0, false) 0) 1).1.obs ∧
+    (advance Ex.orderSim (initState Ex.orderD (circuitKinds Ex.orderD) Ex.orderScripts)).1.obs = [(1, 0, [4])] := by
+  refine ⟨?_, by decide +kernel⟩
+  have h := tb_sees_earlier_set Ex.orderSim (step_keeps_obs _ _ _ _ _) (Ex.orderS0, false) 0 (.sig 0) 7 (.sig 1)
+    (getLoc Ex.orderS0 1) (by decide +kernel) (by decide +kernel) (by decide +kernel) rfl rfl _ rfl
+    (by decide +kernel) (getLoc Ex.orderS0 2) (by decide +kernel) (by decide +kernel) (by decide +kernel) rfl
+  have e : ((0 : Nat) + 1, (Ex.orderSim.step { setLoc (Ex.orderS0, false).1 (Ex.orderSim.nproc + 0) { getLoc Ex.orderS0 1 with runnable := false } with
+        next := assignTbG true Ex.orderSim.ctx (Ex.orderS0, false).1.curr (.sig 0) 0 7 (widthOf Ex.orderSim.ctx (.sig 0)) (Ex.orderS0, false).1.next }).now,
+      [evalTb Ex.orderSim.ctx (Ex.orderSim.step { setLoc (Ex.orderS0, false).1 (Ex.orderSim.nproc + 0) { getLoc Ex.orderS0 1 with runnable := false } with
+        next := assignTbG true Ex.orderSim.ctx (Ex.orderS0, false).1.curr (.sig 0) 0 7 (widthOf Ex.orderSim.ctx (.sig 0)) (Ex.orderS0, false).1.next }).curr (.sig 1)])
+      = ((1, 0, [4]) : Obs) := by decide +kernel
+  rw [e] at h
+  exact h
 
 /-- `ctx.set` ends with `step_design()`; when that returns (the loop converged), the state is settled:
 `curr = next` everywhere, no process runnable, no trigger active — a fixpoint of `delta` for every order -/
@@ -249,6 +491,28 @@ theorem set_returns_settled (ps : List ProcDef) (hwb : WellBehaved ps) (sched : 
 theorem owners_well_behaved (D : Design) (kinds : List ProcKind) (scripts : List (List TbOp)) :
     WellBehaved (simDefs D kinds scripts) := simDefs_wellBehaved D kinds scripts
 
+/-- non-vacuity: `step_design()` of the counter simulation converges from its initial state, and the
+owner list matches the state: the hypotheses of `set_returns_settled` hold for a `mkSim` simulation -/
+example :
+    (settle (simDefs Ex.counterD Ex.counterKinds Ex.counterScripts) (identitySched 3 3) 50
+      (initState Ex.counterD Ex.counterKinds Ex.counterScripts)).2 = true ∧
+    (simDefs Ex.counterD Ex.counterKinds Ex.counterScripts).length =
+      (initState Ex.counterD Ex.counterKinds Ex.counterScripts).locals.length := by decide +kernel
+
+/-- … and so does its conclusion: the settled state is a fixpoint of `delta` for the reversed order too -/
+example : ∃ k, ∀ o, (identitySched 3 3 k).Equiv o →
+    delta (simDefs Ex.counterD Ex.counterKinds Ex.counterScripts) o
+      (settle (simDefs Ex.counterD Ex.counterKinds Ex.counterScripts) (identitySched 3 3) 50
+        (initState Ex.counterD Ex.counterKinds Ex.counterScripts)).1 =
+      ({ (settle (simDefs Ex.counterD Ex.counterKinds Ex.counterScripts) (identitySched 3 3) 50
+          (initState Ex.counterD Ex.counterKinds Ex.counterScripts)).1 with
+         deltas := (settle (simDefs Ex.counterD Ex.counterKinds Ex.counterScripts) (identitySched 3 3) 50
+          (initState Ex.counterD Ex.counterKinds Ex.counterScripts)).1.deltas + 1 }, true) := by
+  obtain ⟨k, _, h⟩ := set_returns_settled _ (owners_well_behaved Ex.counterD Ex.counterKinds Ex.counterScripts)
+    (identitySched 3 3) 50 (initState Ex.counterD Ex.counterKinds Ex.counterScripts)
+    (by decide +kernel) (by decide +kernel)
+  exact ⟨k, h⟩
+
 /-- Tick sampling. Let `s` be the state in which the clock edge is committed (`commit ps order s`).
 (1) Every signal that is not pending in `s` keeps its value through that commit: registers and
 combinational outputs still hold their pre-edge values afterwards. (2) The commit activates the
@@ -256,7 +520,9 @@ testbench that waits for the tick. (3) In the next delta the testbench's result 
 1a from `curr` exactly as that commit left it, and (4) the processes of that delta — among them the
 synchronous processes woken by the edge — do not change `curr`; their register updates reach `curr`
 only in the commit that ends the delta. (5) No delta runs a testbench: it resumes after
-`step_design()` has converged, on the settled post-edge state (`set_returns_settled`). -/
+`step_design()` has converged, on the settled post-edge state (`set_returns_settled`).
+These are the five local facts; they are chained into one statement about `step_design()` and
+`advance()` by `tick_sampling_settle` and `tick_sampling_end_to_end` at the end of this file. -/
 theorem tick_sampling (ps : List ProcDef) (ctx : Ctx) (doms : List DomCfg) (script : List TbOp) (o : Nat)
     (hdef : ps[o]? = some (tbDef ctx doms script)) :
     (∀ (order : List Nat) (s : EState) (i : Nat), s.next.val i = s.curr.val i →
@@ -285,5 +551,107 @@ example :
     let scripts := [[TbOp.tick 0 [.sig 1], TbOp.get (.sig 1)]]
     (run (mkSim D kinds scripts (identitySched 2 2) 50) 20 (initState D kinds scripts)).obs.reverse
       = [(0, 2, [1, 0, 5]), (0, 2, [6])] := by decide +kernel
+
+/-- **Tick sampling on `step_design()`.** Let `s` be the state at the start of the delta whose commit
+performs the active clock edge of domain `d` (after the process phase of that delta the clock is
+pending with an edge of the domain's polarity, and is among the slots committed), and let testbench
+`o` be suspended on `tick(d).sample(*es)`. Let `c₁` be `curr` right after that commit. Then when
+`step_design()` returns (fuel ≥ 2; the schedule does not list the testbench among the processes),
+the testbench is runnable, still has to report, and its wait returns `(1, rst, *es evaluated in c₁)`.
+Every signal that is not pending at that commit has in `c₁` the value it had before the edge: the
+registers of the domain — whose processes are only woken by this commit — are sampled with their
+pre-edge values, whatever the order of processes and slots. -/
+theorem tick_sampling_settle (ps : List ProcDef) (ctx : Ctx) (doms : List DomCfg) (script : List TbOp) (o : Nat)
+    (hdef : ps[o]? = some (tbDef ctx doms script)) (d : Nat) (es : List Expr) (s : EState) (l : Local)
+    (hl : s.locals[o]? = some l) (hop : script[l.pc]? = some (.tick d es)) (hw : l.waiting = true)
+    (ha : l.active = false) (hlen : l.hits.length = (tickTrigger (doms.getD d default) es).length)
+    (sched : Sched) (hno : ∀ k, o ∉ (sched k).procs) (hclk : (doms.getD d default).clk ∈ (sched s.deltas).slots)
+    (hedge : (bitOf (s.curr.val (doms.getD d default).clk) 0 !=
+                bitOf ((runProcs ps (sched s.deltas).procs (trigPhase ps s)).next.val (doms.getD d default).clk) 0 &&
+              bitOf ((runProcs ps (sched s.deltas).procs (trigPhase ps s)).next.val (doms.getD d default).clk) 0 ==
+                (doms.getD d default).posedge) = true)
+    (fuel : Nat) :
+    let c₁ := (delta ps (sched s.deltas) s).1.curr
+    (∃ l' rst, (settle ps sched (fuel + 2) s).1.locals[o]? = some l' ∧
+      l'.runnable = true ∧ l'.waiting = false ∧ l'.active = false ∧ l'.report = l.report ∧ l'.pc = l.pc ∧
+      TbOp.shown l'.result (.tick d es) = 1 :: rst :: es.map (evalTb ctx c₁)) ∧
+    (∀ i, (runProcs ps (sched s.deltas).procs (trigPhase ps s)).next.val i = s.curr.val i → c₁.val i = s.curr.val i) :=
+  settle_tick ps ctx doms script o hdef d es s l hl hop hw ha hlen sched hno hclk hedge fuel
+
+/-- **Tick sampling, end to end on `advance()`.** Let `s` be a state in which testbench `t` of a
+simulation is suspended on `await ctx.tick(d).sample(*es)` (it has to report when it resumes), and let
+the first delta of this `advance()` commit the active clock edge of domain `d` (a clock process is due,
+or a testbench has just written the clock). Then this `advance()` records, for testbench `t` and at the
+current time, the observation `(1, rst, *es evaluated in c₁)` where `c₁` is `curr` right after the
+commit of the edge's delta; and every signal that is not pending at that commit — the registers
+clocked by the edge — has in `c₁` the value it had before the edge. For every schedule that lists only
+processes, every fuel ≥ 2. -/
+theorem tick_sampling_end_to_end (D : Design) (kinds : List ProcKind) (scripts : List (List TbOp)) (sched : Sched) (f : Nat)
+    (t : Nat) (script : List TbOp) (hsc : scripts[t]? = some script)
+    (d : Nat) (es : List Expr) (s : EState) (l : Local)
+    (hl : s.locals[kinds.length + t]? = some l) (hop : script[l.pc]? = some (.tick d es)) (hw : l.waiting = true)
+    (ha : l.active = false) (hrep : l.report = true)
+    (hlen : l.hits.length = (tickTrigger (D.doms.getD d default) es).length)
+    (hno : ∀ k, ∀ p ∈ (sched k).procs, p < kinds.length)
+    (hclk : (D.doms.getD d default).clk ∈ (sched s.deltas).slots)
+    (hedge : (bitOf (s.curr.val (D.doms.getD d default).clk) 0 !=
+                bitOf ((runProcs (simDefs D kinds scripts) (sched s.deltas).procs
+                  (trigPhase (simDefs D kinds scripts) s)).next.val (D.doms.getD d default).clk) 0 &&
+              bitOf ((runProcs (simDefs D kinds scripts) (sched s.deltas).procs
+                  (trigPhase (simDefs D kinds scripts) s)).next.val (D.doms.getD d default).clk) 0 ==
+                (D.doms.getD d default).posedge) = true) :
+    let c₁ := (delta (simDefs D kinds scripts) (sched s.deltas) s).1.curr
+    (∃ rst, (t, s.now, 1 :: rst :: es.map (evalTb D.ctx c₁)) ∈ (advance (mkSim D kinds scripts sched (f + 2)) s).1.obs) ∧
+    (∀ i, (runProcs (simDefs D kinds scripts) (sched s.deltas).procs
+        (trigPhase (simDefs D kinds scripts) s)).next.val i = s.curr.val i → c₁.val i = s.curr.val i) :=
+  advance_tick D kinds scripts sched f t script hsc d es s l hl hop hw ha hrep hlen hno hclk hedge
+
+/-- **… and the values are the pre-edge values.** If no signal mentioned by the sampled expressions is
+pending at the commit of the edge (the registers of the domain and what is computed from them: their
+processes have not run yet — they are woken by this very commit), the observation recorded by this
+`advance()` is `(1, rst, *es evaluated in s.curr)`: the values from just before the edge. -/
+theorem tick_returns_pre_edge_values (D : Design) (kinds : List ProcKind) (scripts : List (List TbOp)) (sched : Sched) (f : Nat)
+    (t : Nat) (script : List TbOp) (hsc : scripts[t]? = some script)
+    (d : Nat) (es : List Expr) (s : EState) (l : Local)
+    (hl : s.locals[kinds.length + t]? = some l) (hop : script[l.pc]? = some (.tick d es)) (hw : l.waiting = true)
+    (ha : l.active = false) (hrep : l.report = true)
+    (hlen : l.hits.length = (tickTrigger (D.doms.getD d default) es).length)
+    (hno : ∀ k, ∀ p ∈ (sched k).procs, p < kinds.length)
+    (hclk : (D.doms.getD d default).clk ∈ (sched s.deltas).slots)
+    (hedge : (bitOf (s.curr.val (D.doms.getD d default).clk) 0 !=
+                bitOf ((runProcs (simDefs D kinds scripts) (sched s.deltas).procs
+                  (trigPhase (simDefs D kinds scripts) s)).next.val (D.doms.getD d default).clk) 0 &&
+              bitOf ((runProcs (simDefs D kinds scripts) (sched s.deltas).procs
+                  (trigPhase (simDefs D kinds scripts) s)).next.val (D.doms.getD d default).clk) 0 ==
+                (D.doms.getD d default).posedge) = true)
+    (hquiet : ∀ e ∈ es, ∀ i ∈ exprSigs e, (runProcs (simDefs D kinds scripts) (sched s.deltas).procs
+        (trigPhase (simDefs D kinds scripts) s)).next.val i = s.curr.val i) :
+    ∃ rst, (t, s.now, 1 :: rst :: es.map (evalTb D.ctx s.curr)) ∈ (advance (mkSim D kinds scripts sched (f + 2)) s).1.obs :=
+  advance_tick_pre_edge D kinds scripts sched f t script hsc d es s l hl hop hw ha hrep hlen hno hclk hedge hquiet
+
+/-- non-vacuity and test: the counter after its first `advance()` (clock due at 2 fs, testbench suspended
+on `tick().sample(count, out)`): all hypotheses of `tick_sampling_end_to_end` hold, and the observation it
+promises is `(1, rst, 5, 6)` at 2 fs — `count` and `out = count ^ 3` from before the edge -/
+example : ∃ rst, (0, 2, 1 :: rst :: [5, 6]) ∈ (advance Ex.counterSim Ex.counterS1).1.obs := by
+  have h := tick_sampling_end_to_end Ex.counterD Ex.counterKinds Ex.counterScripts (identitySched 3 3) 48 0
+    [.tick 0 [.sig 1, .sig 2], .get (.sig 2), .tick 0 [.sig 1], .get (.sig 1)] rfl 0 [.sig 1, .sig 2]
+    Ex.counterS1 (getLoc Ex.counterS1 3)
+    (by decide +kernel) rfl (by decide +kernel) (by decide +kernel) (by decide +kernel) (by decide +kernel)
+    (fun _ p hp => List.mem_range.mp hp) (by decide +kernel) (by decide +kernel)
+  obtain ⟨⟨rst, h1⟩, _⟩ := h
+  refine ⟨rst, ?_⟩
+  have e : List.map (evalTb Ex.counterD.ctx (delta (simDefs Ex.counterD Ex.counterKinds Ex.counterScripts)
+      (identitySched 3 3 Ex.counterS1.deltas) Ex.counterS1).1.curr) [Expr.sig 1, Expr.sig 2] = [5, 6] := by decide +kernel
+  have e2 : Ex.counterS1.now = 2 := by decide +kernel
+  rw [e, e2] at h1
+  exact h1
+
+/-- non-vacuity: the extra hypothesis of `tick_returns_pre_edge_values` holds there too (neither `count`
+nor `out` is pending when the clock edge is committed), and the pre-edge values are `count = 5`, `out = 6` -/
+example :
+    (∀ e ∈ [Expr.sig 1, Expr.sig 2], ∀ i ∈ exprSigs e,
+      (runProcs (simDefs Ex.counterD Ex.counterKinds Ex.counterScripts) (identitySched 3 3 Ex.counterS1.deltas).procs
+        (trigPhase (simDefs Ex.counterD Ex.counterKinds Ex.counterScripts) Ex.counterS1)).next.val i = Ex.counterS1.curr.val i) ∧
+    [Expr.sig 1, Expr.sig 2].map (evalTb Ex.counterD.ctx Ex.counterS1.curr) = [5, 6] := by decide +kernel
 
 end Amaranth.C08
